@@ -98,7 +98,9 @@ class Bar(object):
             notes = NoteContainer(notes)
         elif isinstance(notes, list):
             notes = NoteContainer(notes)
-        if self.current_beat + 1.0 / duration <= self.length or self.length == 0.0:
+        # The current beat is a sum of floats; allow for its rounding error so
+        # that a bar can be filled to exactly its length.
+        if self.length == 0.0 or self.current_beat + 1.0 / duration <= self.length + 1e-9:
             self.bar.append([self.current_beat, duration, notes])
             self.current_beat += 1.0 / duration
             return True
